@@ -41,6 +41,8 @@ var historyGroups = []string{
 	"func hret(m dsl.Matcher) {\n\tm.Match(`return $*_`).Report(`return`)\n}\n",
 	"func hlist(m dsl.Matcher) {\n\tm.Match(`probe($a); probe($b)`).Report(`two probes $a $b`)\n}\n",
 	"func hswitch(m dsl.Matcher) {\n\tm.Match(`switch { $*_ }`).Where(m.Deadcode()).Report(`dead switch`)\n}\n",
+	"func hpkg(m dsl.Matcher) {\n\tm.Match(`fmt.Println($*_)`, `strings.ToUpper($_)`).Report(`package symbol $$`)\n}\n",
+	"func hpkgsub(m dsl.Matcher) {\n\tm.Match(`go func() { $*_ }()`).Where(m[\"$$\"].Contains(`fmt.Println($*_)`)).Report(`goroutine prints`)\n}\n",
 	"func himports(m dsl.Matcher) {\n\tm.Match(`_ = $x`).Where(m.File().Imports(`unsafe`) && !m.File().Imports(`sync`)).Report(`blank in a file that imports unsafe`)\n}\n",
 }
 
@@ -300,7 +302,10 @@ func genVfGroup(rng *rand.Rand, idx int) (src, kind string) {
 // historySink: the statements the generated families look at, in both orders, in several functions.
 const historySink = `package target
 
-import "sync"
+import (
+	"fmt"
+	"sync"
+)
 
 const ct = true
 const cn = 5
@@ -323,6 +328,8 @@ func cmpA(x int, b bool, s []int, f float64, str string) {
 func closuresA(x int, b bool, s []int) {
 	func() { probe(1) }()
 	go func() { mu.Lock() }()
+	go func() { fmt.Println(x) }()
+	fmt.Println(b)
 	for range s { probe(2) }
 	_ = func(q int) int { return q }
 	defer func(v int) { probe(v) }(x)
@@ -344,6 +351,7 @@ func closuresB(x int, b bool, s []int) {
 	_ = func(q int) int { return probe(q) }
 	switch { case b: _ = x + 1 }
 	func() { probe(7) }()
+	go func() { fmt.Println(probe(10), mu.TryLock()) }()
 }
 
 func cmpB(x int, b bool, s []int, f float64, str string) {
@@ -464,7 +472,7 @@ type hVariant struct {
 
 // historyHeader: the file header for the given groups (fmt is imported only when a custom filter formats)
 func historyHeader(groups string) string {
-	if strings.Contains(groups, "fmt.") {
+	if strings.Contains(groups, "fmt.Sprintf(") {
 		return "package gorules\n\nimport (\n\t\"fmt\"\n\n\t\"github.com/quasilyte/go-ruleguard/dsl\"\n)\n\n" + groups
 	}
 	return "package gorules\n\nimport \"github.com/quasilyte/go-ruleguard/dsl\"\n\n" + groups
